@@ -74,7 +74,7 @@ def op_model(o):
 
 
 def case_lines(case, mode="fresh"):
-    lim = "%d,%d,%d" % tuple(case["limits"])
+    lim = ",".join(str(x) for x in case["limits"])
     pi = ",".join(hx("M%d" % m) for m in case["probes"]) or "-"
     pm = ",".join(str(m) for m in case["probes"]) or "-"
     hi = " ".join(op_impl(o) for o in case["hist"])
@@ -123,6 +123,9 @@ def targeted_cases():
     for noc in ((), (0,), (0, 1)):
         out.append(dict(D, hist=base_hist(2, noc=noc) + [("C",)], test=("H", 2), tag="hello/%d" % len(noc)))
     out.append(dict(D, hist=base_hist(2), test=("H", 1), tag="hello/again"))
+    # max_connections_per_user: one below the limit (the per-uid count of a failed Hello matters, F14.4), at the limit, above
+    for mc in (2, 3, 4):
+        out.append(dict(limits=(512, 512, 128, mc), probes=[], hist=base_hist(2) + [("C",)], test=("H", 2), tag="hello/maxconns%d" % mc))
     out.append(dict(D, hist=base_hist(2) + [("C",)], test=("R", 2, A, 0), tag="req/unregistered"))
     out.append(dict(D, hist=base_hist(2) + [("C",)], test=("A", 2, 1), tag="add/unregistered"))
     # AddMatch / RemoveMatch
@@ -154,7 +157,7 @@ def targeted_cases():
 
 def random_case(rnd, maxlen):
     n = rnd.randint(2, 5)
-    limits = (rnd.choice((512, 512, 3, 2)), rnd.choice((512, 512, 2, 3)), rnd.choice((128, 128, 1, 2)))
+    limits = (rnd.choice((512, 512, 3, 2)), rnd.choice((512, 512, 2, 3)), rnd.choice((128, 128, 1, 2)), rnd.choice((256, 256, 256, n + 1, n + 2)))
     hist = base_hist(n, noc=[i for i in range(n) if rnd.random() < 0.4])
     names = NAMES[:rnd.randint(1, 3)]
     tags = iter(range(10, 10000))
@@ -297,6 +300,8 @@ def classify_known(case, base, succ, o, why):
     nomem = o["A"] == "c%d:%s" % (requester_of(case), NOMEM)
     if t == "H" and nomem and "Error.Failed" in o["R"]:
         return "F10c"
+    if t == "H" and nomem and o["S"] == base and "Error.LimitsExceeded" in o["R"] and "Error.LimitsExceeded" not in succ["A"]:
+        return "F14.4"
     if t in "RL" and nomem and o["S"] != base:
         # queue membership changed -> F10a ; only flags / position changed -> F10b
         qb = re.sub(r"(c\d+)[ad]*", r"\1", base)
@@ -479,7 +484,7 @@ def run(ctx):
                               dict(replay, impl=ir[:3000], model=mr[:3000], k_count=n))
     # the refutation witnesses of Props/C14.v (corpus/C14/f<id>_*.json) must still show their finding on the real code
     # (corpus/C14/f14_1_*.json are the former witnesses of F14.1, fixed: plain regression inputs now)
-    want = {"f10a": "F10a", "f10b": "F10b", "f10c": "F10c"}
+    want = {"f10a": "F10a", "f10b": "F10b", "f10c": "F10c", "f14_4": "F14.4"}
     for case, mode in jobs:
         t = case.get("tag", "")
         if mode == "fresh" and t.startswith("corpus/f"):
@@ -488,10 +493,11 @@ def run(ctx):
                 rep.violation("refutation witness %s no longer shows finding %s on the implementation (theorem C14_*_refuted would be about the model only)" % (t, fid[0]),
                               {"case": case_json(case), "names": "corpus witness vs Props/C14.v refutation"}, found_input=False)
     lib = run_lib(ctx, rnd, stats)
+    strleg = run_str(ctx, rnd)
     rep.coverage.update({
-        "evaluations": stats["failure_points"] + stats["cases"] + lib.get("lib_points", 0),
-        "distinct_nontrivial": len(nontrivial) + lib.get("lib_distinct", 0),
-        "cases": stats["cases"], "stats": stats, "lib": lib,
+        "evaluations": stats["failure_points"] + stats["cases"] + lib.get("lib_points", 0) + strleg.get("str_points", 0),
+        "distinct_nontrivial": len(nontrivial) + lib.get("lib_distinct", 0) + strleg.get("str_distinct", 0),
+        "cases": stats["cases"], "stats": stats, "lib": lib, "dbus_string": strleg,
         "rule": "one evaluation = one (prior state, request, failing allocation index) run on a fresh in-process bus, plus the unfailed run of each case; "
                 "distinct = distinct (request kind, prior-state snapshot, ordered outcome sequence); library leg counted per (operation, failing index)",
         "samples": samples,
@@ -635,4 +641,149 @@ def run_lib(ctx, rnd, stats):
                 rep.violation("C14 (library leg) violated: `%s` with a failing allocation: %s (unfailed: %s)" % (line[:200], v[:200], ref[:80]),
                               {"input": line, "result": r[:3000], "how": "echo '<input>' | build/oom_h"})
     out["lib_distinct"] = len(distinct)
+    return out
+
+
+# ---- DBusString leg: primitives one-to-one against Oom.DString ---------------------------------
+def str_lines(rnd, tier):
+    L = []
+    H = lambda b: hx(bytes(b))
+    content = [b"", b"h", b"hello", b"1234567", b"12345678", b"123456789", bytes(range(1, 40))]
+    caps = [0, 1, 7, 8, 16, 64]
+    def ops_for(n):
+        mid = n // 2
+        o = []
+        for at in sorted({0, mid, n}):
+            for k in (0, 1, 3, 8):
+                o.append("I%d,%d,%d" % (at, k, 170))
+            o.append("B%d,%d" % (at, 7))
+            for oct_ in (b"\x01\x02", b"\x01\x02\x03\x04", b"\x01\x02\x03\x04\x05\x06\x07\x08"):
+                o.append("N%d,%s" % (at, H(oct_)))
+            for a in (1, 2, 4, 8):
+                o.append("G%d,%d" % (at, a))
+            for src, st, ln in ((b"ABCDEF", 0, 6), (b"ABCDEF", 2, 3), (b"ABCDEF", 6, 0), (b"A", 0, 1)):
+                o.append("C%s,%d,%d,%d" % (H(src), st, ln, at))
+                for rl in sorted({0, min(1, n - at), min(ln, n - at), n - at}):
+                    o.append("R%s,%d,%d,%d,%d" % (H(src), st, ln, at, rl))
+        for k in (0, 1, 7, 8, 9):
+            o += ["L%d" % k, "S%d" % k, "T%d" % k]
+            if k <= n:
+                o.append("H%d" % k)
+        # (the _DBUS_STRING_MAX_LENGTH boundary is covered by the proofs only: the unary lengths of the extracted model cannot go there)
+        o += ["T%d" % n, "T%d" % (n + 1)]
+        for a in (1, 2, 4, 8):
+            o.append("A%d" % a)
+        o += ["P-", "P" + H(b"xyz"), "P" + H(b"x" * 9), "Y65"]
+        for st in sorted({0, mid, n}):
+            for ln in sorted({0, min(1, n - st), n - st}):
+                o.append("D%d,%d" % (st, ln))
+        return o
+    for c in content:
+        for cap in caps:
+            hist = ["P" + H(c)] if c else []
+            for o in ops_for(len(c)):
+                L.append("str %d %s -- %s" % (cap, " ".join(hist), o))
+    # histories that leave spare capacity behind (shorten / delete / alloc_space), then growth that fits exactly or not by one
+    for spare in (1, 2, 7, 8, 9):
+        hist = "P%s H%d" % (H(b"x" * 20), spare)
+        for g in (spare - 1, spare, spare + 1):
+            if g >= 0:
+                L += ["str 0 %s -- L%d" % (hist, g), "str 0 %s -- I3,%d,1" % (hist, g), "str 0 %s -- P%s" % (hist, H(b"y" * g)),
+                      "str 0 %s -- R%s,0,%d,2,1" % (hist, H(b"z" * (g + 1)), g + 1), "str 0 %s -- C%s,0,%d,%d" % ("P%s D0,%d" % (H(b"x" * 20), spare), H(b"q" * 12), g, 20 - spare)]
+    nrand = 300 if tier == "quick" else 20000
+    for _ in range(nrand):
+        cap = rnd.choice((0, 0, 3, 8, 20, 100))
+        n = 0
+        hist = []
+        for _ in range(rnd.randint(0, 4)):
+            k = rnd.random()
+            if k < 0.5:
+                w = bytes(rnd.randrange(1, 255) for _ in range(rnd.choice((1, 3, 8, 13))))
+                hist.append("P" + H(w)); n += len(w)
+            elif k < 0.7 and n:
+                d = rnd.randint(0, n); hist.append("H%d" % d); n -= d
+            elif k < 0.85 and n:
+                st = rnd.randint(0, n); ln = rnd.randint(0, n - st); hist.append("D%d,%d" % (st, ln)); n -= ln
+            else:
+                g = rnd.randint(0, 12); hist.append("S%d" % g)
+        at = rnd.randint(0, n)
+        src = bytes(rnd.randrange(1, 255) for _ in range(rnd.choice((0, 1, 5, 8, 17))))
+        st = rnd.randint(0, len(src)); ln = rnd.randint(0, len(src) - st)
+        op = rnd.choice(("L%d" % rnd.randint(0, 20), "T%d" % rnd.randint(0, n + 20), "I%d,%d,%d" % (at, rnd.randint(0, 10), 9), "B%d,%d" % (at, 3),
+                         "A%d" % rnd.choice((1, 2, 4, 8)), "N%d,%s" % (at, H(bytes(range(1, 1 + rnd.choice((2, 4, 8)))))), "G%d,%d" % (at, rnd.choice((1, 2, 4, 8))),
+                         "S%d" % rnd.randint(0, 20), "P" + H(src), "Y9", "C%s,%d,%d,%d" % (H(src), st, ln, at),
+                         "R%s,%d,%d,%d,%d" % (H(src), st, ln, at, rnd.randint(0, n - at)), "R%s,%d,%d,%d,%d" % (H(src), st, ln, at, min(ln, n - at))))
+        L.append("str %d %s -- %s" % (cap, " ".join(hist), op))
+    return list(dict.fromkeys(x.replace("  ", " ") for x in L))
+
+
+def masked_equal(impl, model):
+    """contents equal where the model does not say 'uninitialised' (xx)"""
+    if impl == model:
+        return True
+    if len(impl) != len(model):
+        return False
+    return all(m == "x" or m == i for i, m in zip(impl, model))
+
+
+def run_str(ctx, rnd):
+    rep, info = ctx["rep"], ctx["info"]
+    lines = str_lines(rnd, ctx["tier"])
+    env = {"ASAN_OPTIONS": "detect_leaks=0:abort_on_error=0:exitcode=99:allocator_may_return_null=1"}
+    ires, icr = vlib.run_lines(info["oom_h"], lines, env=env)
+    mres, mcr = vlib.run_lines(info["model_oom"], lines)
+    for line, err in icr:
+        rep.violation("DBusString operation crashed / asserted: `%s`: %s" % (line[:200], err[-500:]), {"input": line, "stderr": err})
+    out = {"str_cases": 0, "str_points": 0, "str_fail_points": 0, "by_op": {}, "str_distinct": 0}
+    distinct = set()
+    for line, ir, mr in zip(lines, ires, mres):
+        if ir == "!CRASH" or mr == "!CRASH":
+            continue
+        if mr.startswith("?"):
+            rep.violation("model driver refused `%s`: %s" % (line, mr), {"input": line, "names": "ml/oom str"}, found_input=False)
+            continue
+        def parse(r):
+            segs = r.split(" ## ")
+            base = segs[0][5:].split("|") if segs[0].startswith("base=") else None
+            outs = []
+            for sg in segs[1:]:
+                m = re.match(r"^(\d+)\*f(\d)\|(\d)\|(\d+)\|(\d+)\|(.*)$", sg)
+                if m:
+                    outs.append((int(m.group(1)), int(m.group(2)), int(m.group(3)), int(m.group(4)), int(m.group(5)), m.group(6)))
+            ma = re.search(r"allocs=(-?\d+)", r)
+            ml_ = re.search(r"leak=(-?\d+)", r)
+            return base, outs, int(ma.group(1)) if ma else None, int(ml_.group(1)) if ml_ else 0
+        ib, io, ia, il = parse(ir)
+        mb, mo, ma, _ = parse(mr)
+        replay = {"input": line, "impl": ir[:1500], "model": mr[:1500], "how": "echo '<input>' | build/oom_h ; echo '<input>' | build/ml/oom/model"}
+        if not ib or not io:
+            rep.violation("unparsable DBusString-leg output for `%s`: %s" % (line, ir[:200]), dict(replay, names="harness output"), found_input=False)
+            continue
+        opk = line.split(" -- ")[1][0]
+        out["str_cases"] += 1
+        out["by_op"][opk] = out["by_op"].get(opk, 0) + 1
+        distinct.add((opk, ib[0], ib[1], tuple((o[1], o[2]) for o in io)))
+        # oracle: a failure is reported by FALSE and leaves length, allocation and contents as they were
+        ref = io[-1]
+        bad = None
+        if il != 0:
+            bad = "blocks outstanding after the operation: %d" % il
+        for n, f, ok, ln, al, hexs in io:
+            out["str_points"] += n
+            if f:
+                out["str_fail_points"] += n
+                if ok == 0 and (str(ln) != ib[0] or str(al) != ib[1] or hexs != ib[2]):
+                    bad = "returned FALSE but the string changed: %d|%d|%s (was %s)" % (ln, al, hexs[:80], "|".join(ib)[:100])
+                if ok == 1 and (ln, hexs) != (ref[3], ref[5]):
+                    bad = "an injected failure was absorbed but the result differs from the unfailed one"
+        agree = (ib[:2] == mb[:2] and masked_equal(ib[2], mb[2]) and ia == ma and len(io) == len(mo) and
+                 all(a[:5] == b[:5] and masked_equal(a[5], b[5]) for a, b in zip(io, mo)))
+        if bad and not agree:
+            rep.violation("C14 (DBusString) violated: `%s`: %s" % (line[:200], bad), replay)
+        elif bad:
+            rep.violation("C14 (DBusString) violated, model and implementation agree: `%s`: %s" % (line[:200], bad), replay)
+        elif not agree:
+            rep.violation("DBusString model and implementation disagree (allocation count, success flag, length, allocated or contents) on `%s`: impl %s | model %s" % (line[:200], ir[:300], mr[:300]),
+                          dict(replay, names="Oom.DString.run_sop vs dbus/dbus-string.c"), found_input=False)
+    out["str_distinct"] = len(distinct)
     return out
